@@ -380,7 +380,7 @@ def World.init : World := ⟨FS.empty, []⟩
 
 /-- one complete run operation: build, consume, then close or leak -/
 def runOp (w : World) (r : RunSpec) : World × DriveResult :=
-  let d := drive r.demand w.fs (build r.mode w.fs r.src r.els)
+  let d := drive r.demand w.fs (build r.mode w.fs r.src r.els)   -- = `runPipe` below
   match d.end_ with
   | .exhausted => (⟨d.fs, w.leaked⟩, d)      -- every generator has finished
   | _ =>
@@ -445,5 +445,26 @@ def elsFlow (fs : FS) : List ElSpec → Flow → Flow
 
 /-- the complete flow of the pipeline `src, els` on the file system `fs` -/
 def pipeFlow (fs : FS) (s : SrcSpec) (els : List ElSpec) : Flow := elsFlow fs els (srcFlow s)
+
+/-! ## Vocabulary of the property theorems -/
+
+/-- the cache ids of a pipeline, in order -/
+def cacheIds : List ElSpec → List Nat
+  | [] => []
+  | .map _ _ :: els => cacheIds els
+  | .cache c _ :: els => c :: cacheIds els
+
+/-- no cache of `els` would be replayed on `fs` -/
+def NoFilled (fs : FS) (els : List ElSpec) : Prop := ∀ c rc, ElSpec.cache c rc ∈ els → cacheExists fs c rc = false
+
+/-- the caches of a pipeline are pairwise distinct (distinct files) -/
+def Distinct (els : List ElSpec) : Prop := (cacheIds els).Nodup
+
+/-- the bare-element way of calling is only defined for a single `Cache` -/
+def ModeOk (mode : Mode) (els : List ElSpec) : Prop := mode ≠ .bare ∨ ∃ c rc, els = [.cache c rc]
+
+/-- consuming at most `k` values of the pipeline `s, els`, put together in `mode`, on the file system `fs` -/
+def runPipe (mode : Mode) (fs : FS) (s : SrcSpec) (els : List ElSpec) (k : Nat) : DriveResult :=
+  drive k fs (build mode fs s els)
 
 end Lena.C18
